@@ -103,16 +103,33 @@ func (c *Config) Proxy(closing chan bool, cc io.ReadWriter, url *url.URL) error 
 	}
 	sToC.processors = cToS.processors
 
+	// The session is over as soon as either direction stops relaying, whether its source reached
+	// EOF, sent a malformed frame, or a write to its destination failed. The other direction is told
+	// to stop through `done`, and closing the upstream connection unblocks its pending reads and
+	// writes on that connection. The client connection belongs to the caller, which closes it after
+	// this function returns.
+	done := make(chan struct{})
+	cToS.done, sToC.done = done, done
+	var endOnce sync.Once
+	endSession := func() {
+		endOnce.Do(func() {
+			close(done)
+			sc.Close()
+		})
+	}
+
 	var wg sync.WaitGroup
 	wg.Add(2)
 	go func() { // Forwards frames from client to server.
 		defer wg.Done()
+		defer endSession()
 		if err := cToS.relayFrames(closing); err != nil {
 			log.Errorf("relaying frame from client to %v: %v", url, err)
 		}
 	}()
 	go func() { // Forwards frames from server to client.
 		defer wg.Done()
+		defer endSession()
 		if err := sToC.relayFrames(closing); err != nil {
 			log.Errorf("relaying frame from %v to client: %v", url, err)
 		}
